@@ -26,7 +26,7 @@ type blockRWC struct {
 	ch   chan struct{}
 }
 
-func newBlockRWC() *blockRWC                     { return &blockRWC{ch: make(chan struct{})} }
+func newBlockRWC() *blockRWC                    { return &blockRWC{ch: make(chan struct{})} }
 func (b *blockRWC) Read(p []byte) (int, error)  { <-b.ch; return 0, io.EOF }
 func (b *blockRWC) Write(p []byte) (int, error) { return len(p), nil }
 func (b *blockRWC) Close() error                { b.once.Do(func() { close(b.ch) }); return nil }
